@@ -78,6 +78,7 @@ func runC16(c *eng.Ctx, tier string) {
 		c.Undecided("R-C16-1", lk, lk.Pos(), "callers of the lookup routine", "none")
 	}
 	// service requests after construction only in poll and the lookup literal
+	lks := moduleLocks(c)
 	prepub := map[*ssa.Function]bool{}
 	if newStore != nil {
 		prepub[newStore] = true
@@ -97,7 +98,12 @@ func runC16(c *eng.Ctx, tier string) {
 				return
 			}
 			where := eng.Outer(f)
-			okk := prepub[where] || where == poll || where == lk
+			// construction: NewStore, the initialisation routine, and whatever
+			// helper runs only before the store is published (virtual hold of
+			// the store lock in the lock analysis)
+			hs := lks.HeldBefore(in)
+			virtual := lks.Holds(hs, keyStore) && !lks.HoldsReal(hs, keyStore)
+			okk := prepub[where] || virtual || where == poll || where == lk
 			c.Check(okk, "R-C16-1", f, in.Pos(), "service request "+eng.InstrStr(in), "the store contacts the service only during construction, in the poll, and in the gated lookup routine", "request issued in "+eng.FName(f))
 		})
 	}
